@@ -55,8 +55,11 @@ func c15RouteMsgs(ifi c15Ifi) []rtnetlink.Message {
 			}
 		}
 		p := netip.MustParsePrefix(s)
+		// the kernel's route types vary (unicast, and the unreachable / blackhole / prohibit /
+		// throw aggregates an operator anchors on lo): a loopback route of any type counts
+		types := []uint8{0, unix.RTN_UNICAST, unix.RTN_UNREACHABLE, unix.RTN_BLACKHOLE, unix.RTN_PROHIBIT, unix.RTN_THROW}
 		out = append(out, &rtnetlink.RouteMessage{
-			Family: unix.AF_INET6, DstLength: uint8(p.Bits()), Table: unix.RT_TABLE_MAIN,
+			Family: unix.AF_INET6, DstLength: uint8(p.Bits()), Table: unix.RT_TABLE_MAIN, Type: types[len(out)%len(types)],
 			Attributes: rtnetlink.RouteAttributes{Dst: p.Addr().AsSlice(), OutIface: uint32(ifi.Index), Table: unix.RT_TABLE_MAIN, Pref: pref},
 		})
 	}
@@ -66,7 +69,7 @@ func c15RouteMsgs(ifi c15Ifi) []rtnetlink.Message {
 func TestVerifC15Rtnl(t *testing.T) {
 	r := ev.Begin("C15", "rtnl")
 	defer r.End(t)
-	r.Rule = "the real addresser.LoopbackRoutes/routesByIndex over a scripted interface list and scripted rtnetlink replies: all subsets (<=4) of a 5-interface menu {loopback up with 5 routes (a /128, one with a kernel preference, two pairs sharing a base address at different lengths), second loopback up (a same-base pair and a route listed twice), loopback down, non-loopback up, loopback up without routes} in all permutations, x {no failure, the dump of one listed up loopback interface fails}, + failing interface listing; the scripted kernel holds every listed interface's main-table routes plus one local-table route each and answers a dump filtered by the table / out-interface the request names; oracle: result = (as a set) the main-table routes of the up loopback interfaces with prefix, length, index and kernel preference (medium when absent) preserved, any failure is an error; non-trivial = >=1 up loopback interface and >=1 other; distinct = distinct ordered list x failure"
+	r.Rule = "the real addresser.LoopbackRoutes/routesByIndex over a scripted interface list and scripted rtnetlink replies: all subsets (<=4) of a 5-interface menu {loopback up with 5 routes (a /128, one with a kernel preference, two pairs sharing a base address at different lengths), second loopback up (a same-base pair and a route listed twice), loopback down, non-loopback up, loopback up without routes} in all permutations, x {no failure, the dump of one listed up loopback interface fails}, + failing interface listing; the scripted kernel holds every listed interface's main-table routes (of types unicast, unreachable, blackhole, prohibit, throw) plus one local-table route each and answers a dump filtered by the table / out-interface the request names; oracle: result = (as a set) the main-table routes of the up loopback interfaces with prefix, length, index and kernel preference (medium when absent) preserved, any failure is an error; non-trivial = >=1 up loopback interface and >=1 other; distinct = distinct ordered list x failure"
 	r.Assumptions = []string{"net.Interfaces inside LoopbackRoutes replaced by a scripted list (AST rewrite in the staged copy); rtnetlink replies injected through the addresser's execute field"}
 	defer VerifSetInterfaces(nil)
 	seam := 0
